@@ -76,6 +76,23 @@ SubOne(r) == IF ~IsDef(r) THEN (IF IsInf(r) THEN Zero ELSE Undef)
 RatioOverall(m, c, uw) == IF m \notin NonNegMetrics /\ Overall(m, c, uw) = Zero THEN Undef      \* signed metric, zero overall: not specified
                           ELSE MinSkip({SubOne(Div(Cell(m, c, g, uw), Overall(m, c, uw))) : g \in Groups})
 
+\* ---- the same rows read as TWO SENSITIVE features (stratum, group) and no control feature: the by_group index is
+\* the product Strata \X Groups (empty combinations are NaN and skipped), aggregates range over the whole product
+AllCells(m, uw) == {Cell(m, c, g, uw) : c \in Strata, g \in Groups}
+Overall2(m, uw) == MetricOn(m, All, uw)
+GroupMin2(m, uw) == MinSkip(AllCells(m, uw))
+GroupMax2(m, uw) == MaxSkip(AllCells(m, uw))
+DiffBetween2(m, uw) == Sub(GroupMax2(m, uw), GroupMin2(m, uw))
+DiffOverall2(m, uw) == MaxSkip({AbsR(Sub(x, Overall2(m, uw))) : x \in AllCells(m, uw)})
+RatioBetween2(m, uw) == LET q == Div(GroupMin2(m, uw), GroupMax2(m, uw)) IN IF IsInf(q) THEN Undef ELSE q
+RatioOverall2(m, uw) == IF m \notin NonNegMetrics /\ Overall2(m, uw) = Zero THEN Undef
+                           ELSE MinSkip({SubOne(Div(x, Overall2(m, uw))) : x \in AllCells(m, uw)})
+TwoSF(m, uw) == [overall |-> Overall2(m, uw), gmin |-> GroupMin2(m, uw), gmax |-> GroupMax2(m, uw), diff_b |-> DiffBetween2(m, uw),
+                 diff_o |-> DiffOverall2(m, uw), ratio_b |-> RatioBetween2(m, uw), ratio_o |-> RatioOverall2(m, uw)]
+LawTwoSF == rows # <<>> => \A m \in NonNegMetrics, uw \in BOOLEAN :
+    /\ Le(Zero, DiffBetween2(m, uw)) /\ Le(DiffBetween2(m, uw), Mul(<<2, 1>>, DiffOverall2(m, uw)))
+    /\ IsDef(RatioOverall2(m, uw)) => Le(RatioOverall2(m, uw), One)
+
 \* ---- named fairness metrics (no control feature; evaluated in stratum 1 when S = 1) -------
 Agg(kind, method, m, uw) ==
    CASE kind = "difference" /\ method = "between_groups" -> DiffBetween(m, 1, uw)
@@ -138,7 +155,8 @@ PerMetric(m, uw) ==
     diff_b  |-> [c \in 1..S |-> IF c \in Strata THEN DiffBetween(m, c, uw) ELSE Undef],
     diff_o  |-> [c \in 1..S |-> IF c \in Strata THEN DiffOverall(m, c, uw) ELSE Undef],
     ratio_b |-> [c \in 1..S |-> IF c \in Strata THEN RatioBetween(m, c, uw) ELSE Undef],
-    ratio_o |-> [c \in 1..S |-> IF c \in Strata THEN RatioOverall(m, c, uw) ELSE Undef]]
+    ratio_o |-> [c \in 1..S |-> IF c \in Strata THEN RatioOverall(m, c, uw) ELSE Undef],
+    two_sf  |-> TwoSF(m, uw)]
 Named(uw) ==
    [dp_diff   |-> [k \in 1..2 |-> DPDiff(Methods[k], uw)],
     dp_ratio  |-> [k \in 1..2 |-> DPRatio(Methods[k], uw)],
